@@ -71,7 +71,7 @@ pub trait BulkEvaluator { }
 pub trait Function {
     type Trace;
     type Storage;
-    type Workspace;
+    type Workspace: Default;
     type TapeStorage;
     type IntervalEval: TracingEvaluator<Trace = Self::Trace>;
     type FloatSliceEval: BulkEvaluator;
@@ -102,6 +102,7 @@ impl<F: Function> RenderHandle<F> {
 pub enum ShapeTracingEvalError { MissingVar(u8) }
 pub enum ShapeBulkEvalError { MissingVar(u8), MismatchedVarSlices { a: u8 } }
 pub struct ShapeTracingEval<E: TracingEvaluator> { pub p: core::marker::PhantomData<E> }
+impl<E: TracingEvaluator> Default for ShapeTracingEval<E> { fn default() -> Self { ShapeTracingEval { p: core::marker::PhantomData } } }
 impl<E: TracingEvaluator> ShapeTracingEval<E> {
     /// C03 + C14 (ASSUMED here; units interval / vm / shape, bounded interp_interval, jit_interval, shape_transform): the sign the interval
     /// result decides is the sign of the function at every point of the box; a returned trace is valid on that box
@@ -115,6 +116,7 @@ impl<E: TracingEvaluator> ShapeTracingEval<E> {
     { unimplemented!() }
 }
 pub struct ShapeBulkEval<E: BulkEvaluator> { pub p: core::marker::PhantomData<E> }
+impl<E: BulkEvaluator> Default for ShapeBulkEval<E> { fn default() -> Self { ShapeBulkEval { p: core::marker::PhantomData } } }
 impl<E: BulkEvaluator> ShapeBulkEval<E> {
     /// C01/C02 + C14 (ASSUMED here; units vm / jit / shape and the bounded JIT contracts): one value per sample, the function at that sample
     #[verifier::external_body]
